@@ -40,6 +40,14 @@ class TwoArgErr(Exception):
         self.code = code
 
 
+class ConvertErr(Exception):
+    """an exception whose constructor converts its argument: ConvertErr('some text') raises ValueError"""
+    def __init__(self, limit):
+        super().__init__(limit)
+        self.limit = int(limit)
+        self.code = self.limit
+
+
 class FalsyErr(Exception):
     """an exception whose truth value is false"""
     def __init__(self, code):
@@ -135,6 +143,8 @@ def thread_target(kind, arg):
         raise TwoArgErr(arg, 'x')
     if kind == 10:
         raise FalsyErr(arg)
+    if kind == 11:
+        raise ConvertErr(arg)
     if kind == 2:
         sys.exit()
     if kind == 3:
@@ -147,7 +157,7 @@ def classify(outcome):
     how, x = outcome
     if how == 'ret':
         return [1, 0, 0] if x is None else [1, 1, x]
-    if isinstance(x, (ChildErr, BlockingErr, TwoArgErr, FalsyErr)):
+    if isinstance(x, (ChildErr, BlockingErr, TwoArgErr, FalsyErr, ConvertErr)):
         return [2, 2, x.code]
     if isinstance(x, SystemExit):
         return [2, 3, x.code] if isinstance(x.code, int) else [2, 4, 0]
@@ -309,7 +319,7 @@ def gen_cases(rng, n):
             k, a = rng.choice(endings)
             cases.append({'kind': k, 'arg': a, 'phase': 'during', 'sig': sg, 'thread': False, 'gap': 0, 'jt': None,
                           'first': ['join', 'result', 'exception', 'join'][i % 4]})
-    for k, a in endings + [(8, 6), (10, 5)]:
+    for k, a in endings + [(8, 6), (10, 5), (11, 5)]:
         cases.append({'kind': k, 'arg': a, 'phase': 'none', 'sig': 15, 'thread': True, 'first': 'join'})
     # every ending without a kill and the kills at the discrete points of the protocol run in every tier; the rest is sampled
     base = [c for c in cases if c['phase'] in ('none', 'mid', 'between', 'after')]
